@@ -1,6 +1,6 @@
 """C09 -- B-spline fit is the weighted least-squares optimum; failure is a status code."""
 
-from .bsplinelib import check_int_sinks, check_ict, check_proto, check_status, check_clip, check_chol_nomut, check_coeff_agree
+from .bsplinelib import check_int_sinks, check_ict, check_proto, check_status, check_clip, check_chol_nomut, check_coeff_agree, check_chol_screen
 
 META = {
     'property': 'C09',
@@ -17,7 +17,7 @@ META = {
         'breakpoints are good, every return is (status, yfit), maskpoints returns only -1/-2; C09.CLIP - indices stored through in '
         'maskpoints are clamped inside the array; C09.COEFF-AGREE - fit and value select coefficient slots through the same mask expression; C09.NOMUT - cholesky_band / cholesky_solve do not overwrite the caller\'s matrix. '
         'NOT decided: optimality, agreement with a dense solver, polynomial reproduction, linearity in y, L*L^T = A (numerical).'),
-    'floors': {'C09.INT-SINK': 10, 'C09.ROWS': 4, 'C09.PROTO': 6, 'C09.SHAPE-JOIN': 1, 'C09.STATUS': 5, 'C09.CLIP': 1, 'C09.NOMUT': 2, 'C09.COEFF-AGREE': 1},
+    'floors': {'C09.SCREEN': 3, 'C09.INT-SINK': 10, 'C09.ROWS': 4, 'C09.PROTO': 6, 'C09.SHAPE-JOIN': 1, 'C09.STATUS': 5, 'C09.CLIP': 1, 'C09.NOMUT': 2, 'C09.COEFF-AGREE': 1},
 }
 
 
@@ -29,3 +29,4 @@ def run(ctx):
     check_clip(ctx, ctx.repo, 'C09.CLIP')
     check_chol_nomut(ctx, ctx.repo, 'C09.NOMUT')
     check_coeff_agree(ctx, ctx.repo, 'C09.COEFF-AGREE')
+    check_chol_screen(ctx, ctx.repo, 'C09.SCREEN')
